@@ -1136,7 +1136,13 @@ def m_index(interp, st, t, args, bb):
     ix = args[1]
     if ix[0] in ("i", "sym", "expr"):
         (s2, r), = res
-        return [(s2, ("ref", r[1] + (("f", "[%s]" % idx_name(ix)),)))]
+        if ix[0] == "expr":
+            if ix not in interp.index_vals:
+                interp.index_vals.append(ix)
+            nm = "#%d" % interp.index_vals.index(ix)
+        else:
+            nm = idx_name(ix)
+        return [(s2, ("ref", r[1] + (("f", "[%s]" % nm),)))]
     return res
 
 
